@@ -122,6 +122,22 @@ func runSolver(sp solverSpec, file string, timeoutS int) solveResult {
 
 // decide races the solvers on one query text.
 func decide(dir string, id int, query string, timeoutS int, confirm bool) (solveResult, []solveResult) {
+	return decideWith(solvers, dir, id, query, timeoutS, confirm)
+}
+
+func pickSolvers(names ...string) []solverSpec {
+	var out []solverSpec
+	for _, n := range names {
+		for _, sp := range solvers {
+			if sp.name == n {
+				out = append(out, sp)
+			}
+		}
+	}
+	return out
+}
+
+func decideWith(solvers []solverSpec, dir string, id int, query string, timeoutS int, confirm bool) (solveResult, []solveResult) {
 	file := filepath.Join(dir, fmt.Sprintf("q%d.smt2", id))
 	os.WriteFile(file, []byte(query), 0644)
 	var all []solveResult
@@ -210,7 +226,7 @@ func Discharge(obls []*Obl, timeoutS int, confirm bool, workers int) (disagreeme
 	}
 	var pending []int
 	if !confirm {
-		quick := 4
+		quick := 6
 		runPool(all, workers, func(i int) {
 			o := obls[i]
 			file := filepath.Join(dir, fmt.Sprintf("p%d.smt2", i))
@@ -232,7 +248,7 @@ func Discharge(obls []*Obl, timeoutS int, confirm bool, workers int) (disagreeme
 	} else {
 		pending = all
 	}
-	slow := workers / len(solvers)
+	slow := workers / 3
 	if slow < 2 {
 		slow = 2
 	}
@@ -242,6 +258,17 @@ func Discharge(obls []*Obl, timeoutS int, confirm bool, workers int) (disagreeme
 		if o.TimeoutS > 0 {
 			tmo = o.TimeoutS
 		}
+		if !confirm && os.Getenv("GOVC_NOLEAN") == "" {
+			// first the lean rendering: only assumptions about the goal's own
+			// definitional cone (sound: hypotheses are only dropped)
+			o4 := *o
+			o4.Lean = true
+			g, _ := decideWith(pickSolvers("z3-new", "cvc5"), dir, i+4000000, o4.Query(false), 10, false)
+			if g.status == "unsat" {
+				o.Result, o.Solver, o.TimeS = "unsat", g.solver+"(lean)", g.secs
+				return
+			}
+		}
 		hasQ := strings.Contains(o.Query(false), "(forall ")
 		if hasQ && !confirm {
 			// proof attempt from the ground facts alone (explicit instances of the
@@ -249,7 +276,7 @@ func Discharge(obls []*Obl, timeoutS int, confirm bool, workers int) (disagreeme
 			// for proving, and quantifier-free queries are decided quickly
 			o2 := *o
 			o2.DropQuantified = true
-			g, _ := decide(dir, i+2000000, o2.Query(false), 25, false)
+			g, _ := decideWith(pickSolvers("z3-new", "z3-new-int", "cvc5"), dir, i+2000000, o2.Query(false), 40, false)
 			if g.status == "unsat" {
 				o.Result, o.Solver, o.TimeS = "unsat", g.solver+"(ground)", g.secs
 				return
@@ -261,7 +288,7 @@ func Discharge(obls []*Obl, timeoutS int, confirm bool, workers int) (disagreeme
 			// another mutex, make the solvers wander)
 			o3 := *o
 			o3.Focus = true
-			g, _ := decide(dir, i+3000000, o3.Query(false), 15, false)
+			g, _ := decideWith(pickSolvers("z3-new", "cvc5", "z3"), dir, i+3000000, o3.Query(false), 15, false)
 			if g.status == "unsat" {
 				o.Result, o.Solver, o.TimeS = "unsat", g.solver+"(focused)", g.secs
 				return
